@@ -7,7 +7,7 @@ from props.C03 import components_by_search
 
 LEVEL = "exploration"
 LEVEL_TEXT = ("Deductive part (vcgen/z3, all inputs, over a line-sequence file model): write_changed_genotypes preserves earlier entries, writes the header once and exactly one row per change in order; ReadList.write appends exactly one line per read handed in, in order, attributed to the phase set (component + 1) of the read's first variant, with 1-based first/last positions (contracts/phase_py.py). "
-              "Bounded stand-in (the file-model contracts of write_changed_genotypes / write_recombination_list / ReadList are planned deductive targets): whole "
+              "Bounded stand-in (write_recombination_list / find_recombination are not under deductive contract): whole "
               "`whatshap phase` runs on 2-3 chromosomes x 1-2 families (+ unrelated samples) with every combination of --output-read-list, --changed-genotype-list, "
               "--recombination-list, with and without --distrust-genotypes; the three lists are compared with expectations recomputed from the output VCF and from "
               "wrappers on the solver (reads handed over, partitioning, transmission vectors): entries for every processed chromosome and family, each listed read "
